@@ -89,7 +89,8 @@ CLAIMS['C02'] = dict(
 
 CLAIMS['C08'] = dict(
     text='Unbounded proof of both halves, each against the statement: (1) SourceMapIndex::lookup_token resolves in the section with the greatest offset not after the position '
-         '(GLB contract instantiated for section offsets), delegates the section-relative position (line - off_line; col - off_col on the first line only), both subtractions '
+         '(GLB contract instantiated for section offsets), delegates the section-relative position (line - off_line; col - off_col on the first line only) to the section\'s map '
+         '-- a regular map (SourceMap::lookup_token\'s statement), a Hermes map (its inner map) or a nested index (the same statement, recursively) -- both subtractions '
          'proved safe, nothing before the first section. (2) SourceMapIndex::flatten (u13_flatten, recursive contract over nested indexes, termination by structural decrease): '
          'the result holds, up to the final sort by generated position, exactly the tokens of the sections in order -- each re-expressed over the output tables with the same '
          'source string, name string, original position and range flag, its line moved down by the section line offset and its column moved right by the column offset on the '
@@ -97,7 +98,8 @@ CLAIMS['C08'] = dict(
          'over; nested index sections contribute any map that satisfies the same contract; an unresolved section gives Err, and Err arises only from an unresolved section, a '
          'nested index, or a position overflow. SourceMapSectionIter::next is checked against the prophetic iterator laws under a type invariant (at most 2^32-1 sections). '
          'PARTIAL: the agreement clause (a token found by the index lookup is found at the same original location by the flattened map) is a bounded stand-in only.',
-    note=_TB + 'DecodedMap::lookup_token (3-way dispatch) is represented by a named result dm_lookup (assumed); sections are required sorted by offset, as decode_index leaves them. '
+    note=_TB + 'DecodedMap::lookup_token (3-way dispatch, Hermes through its real Deref impl) and SourceMapIndex::lookup_token are verified as a mutually recursive pair against the recursive relation '
+         'idx_lookup_post / dm_lookup_post (termination by structural decrease); required: sections sorted by offset (as decode_index leaves them) and token lists sorted, recursively. '
          'flatten assumes: Cow<SourceMap> deref returns the borrowed/owned map; error message texts are not modelled (format! arguments dropped); embedded maps satisfy root_wf; '
          'fewer than 2^32-256 tokens in total.',
     design_ref='DESIGN.md 5 C08')
@@ -182,7 +184,7 @@ NOT_COVERED = {
     'C09': ['strip_prefixes, find_common_prefix ("~") (bounded stand-in rewrite only)', 'load_local_source_contents (filesystem; excluded by the property)', 'SourceMapHermes::rewrite function-map permutation (bounded stand-in only)'],
     'C05': ['dependencies (serde_json, url, bitvec, data-encoding, base64-simd, debugid)', 'sourceview.rs, js_identifiers.rs, detector.rs line scan, Display/Debug impls, ram_bundle.rs',
             'flatten (+ off_col / + off_line overflow, design-phase defect D6), rewrite, adjust_mappings, range bitfield writer (D4), decode_hermes', 'allocation in proportion to the input; wall-clock (only termination is proved)'],
-    'C08': ['agreement lemma lookup vs flatten (needs: flattened tokens of properly nested sections are already sorted, and SourceMap::lookup_token on the concatenation): bounded stand-in index_flatten only', 'DecodedMap::lookup_token dispatch (assumed naming)', 'flatten_and_rewrite (composition of two proved functions, not itself under contract)'],
+    'C08': ['agreement lemma lookup vs flatten (needs: flattened tokens of properly nested sections are already sorted, and SourceMap::lookup_token on the concatenation): bounded stand-in index_flatten only'  , 'flatten_and_rewrite (composition of two proved functions, not itself under contract)'],
     'C14': ['decode_hermes function-map decoding (running column/name/line state)', 'get_original_function_name wrapper', 'stability under serialise/decode'],
     'C01': ['as_raw_sourcemap field plumbing (SourceMap / SourceMapIndex / Hermes): bounded stand-in roundtrip only', 'serde_json layer'],
     'C02': ['the six `let` lines of decode_regular that unpack the raw document (checked textually, not verified)', 'termination of the decode_index / decode_common recursion (bounded by serde_json)', 'decode_hermes'],
